@@ -135,3 +135,43 @@ Proof.
   - apply IH, H.
 Qed.
 End Identity.
+
+(* ---------- integers <-> floating point ---------- *)
+From Coq Require Import Lia.
+Open Scope Z_scope.
+
+(* std::round on the decoded value m * 2^e (e < 0): the result is a nearest integer, the halfway case goes away from zero *)
+Lemma float_round_nearest : forall prec ew bits s m e,
+  float_decode prec ew bits = Some (s, m, e) -> e < 0 ->
+  exists a, float_round prec ew bits = Some (if s then - a else a) /\
+            2 * Z.abs (m - a * 2 ^ (- e)) <= 2 ^ (- e) /\
+            (2 * Z.abs (m - a * 2 ^ (- e)) = 2 ^ (- e) -> m < a * 2 ^ (- e)).
+Proof.
+  intros prec ew bits s m e Hd He. unfold float_round. rewrite Hd.
+  assert (E0 : (0 <=? e) = false) by lia. rewrite E0.
+  set (d := 2 ^ (- e)). assert (Hdp : 0 < d) by (apply Z.pow_pos_nonneg; lia).
+  pose proof (Z.div_mod m d ltac:(lia)) as Hm. pose proof (Z.mod_pos_bound m d Hdp) as Hr.
+  set (q := m / d) in *. set (r := m mod d) in *.
+  destruct (d <=? 2 * r) eqn:E.
+  - exists (q + 1). split; [reflexivity|]. replace (m - (q + 1) * d) with (r - d) by nia. split; [lia|]. intros _. nia.
+  - exists q. split; [reflexivity|]. replace (m - q * d) with r by nia. split; lia.
+Qed.
+
+(* an integer that fits the mantissa converts to floating point exactly, and back *)
+Definition zrange (lo hi : Z) : list Z := map (fun k => lo + Z.of_nat k) (seq 0 (Z.to_nat (hi - lo + 1))).
+
+Theorem int_float_exact_bounded : forall z, -4096 <= z <= 4096 ->
+  float_round 24 8 (z_to_float 24 8 z) = Some z /\ float_round 53 11 (z_to_float 53 11 z) = Some z.
+Proof.
+  intros z Hz.
+  assert (H : forallb (fun z => match float_round 24 8 (z_to_float 24 8 z), float_round 53 11 (z_to_float 53 11 z) with
+                               | Some a, Some b => (a =? z) && (b =? z) | _, _ => false end) (zrange (-4096) 4096) = true)
+    by (vm_compute; reflexivity).
+  rewrite forallb_forall in H. specialize (H z).
+  assert (Hin : In z (zrange (-4096) 4096)).
+  { unfold zrange. apply in_map_iff. exists (Z.to_nat (z + 4096)). split; [lia|]. apply in_seq. lia. }
+  specialize (H Hin). destruct (float_round 24 8 (z_to_float 24 8 z)) as [a|]; [|discriminate].
+  destruct (float_round 53 11 (z_to_float 53 11 z)) as [b|]; [|discriminate].
+  apply andb_true_iff in H. destruct H as [Ha Hb]. apply Z.eqb_eq in Ha. apply Z.eqb_eq in Hb. subst. split; reflexivity.
+Qed.
+Open Scope N_scope.
